@@ -915,3 +915,15 @@ package objects
 //@   at[once] call objects.Allocation.MarkTriggeredPreemption#1: assert arg0 == p.ask && len(preemptedVictims) == len(finalVictims)
 //@   at[marked] append preemptedVictims#1: assert elem == victim && victim.preempted && !victim.released
 //@   at[counted] call resources.Resource.AddTo#1: assert arg0 == victimsTotalResource && arg1 == victim.allocatedResource && len(finalVictims) > 0 && finalVictims[len(finalVictims) - 1] == victim
+
+// quota-change preemption never claims more than the preemptable amount (the excess over the lowered maximum) on any
+// type that amount defines, and every victim it marks fits in it
+//@ func (qpc *QuotaPreemptionContext) preemptVictims()
+//@   props C08 C07
+//@   sweep
+//@   mode nopanic=off
+//@   holds mag(qpc.preemptableResource)
+//@   loop 1: invariant victimsTotalResource != nil && victimsTotalResource.Resources != nil && victimsTotalResource != qpc.preemptableResource && victimsTotalResource.Resources != qpc.preemptableResource.Resources && fresh(victimsTotalResource) && fresh(victimsTotalResource.Resources)
+//@   loop 1: invariant forall t Key :: has(qpc.preemptableResource, t) && has(victimsTotalResource, t) ==> rv(victimsTotalResource, t) <= rv(qpc.preemptableResource, t)
+//@   loop 2: invariant forall t Key :: has(qpc.preemptableResource, t) && has(victimsTotalResource, t) ==> rv(victimsTotalResource, t) <= rv(qpc.preemptableResource, t)
+//@   at[claimed] fieldaddr QuotaPreemptionResults.claimedResource#1: assert forall t Key :: has(qpc.preemptableResource, t) && has(victimsTotalResource, t) ==> rv(victimsTotalResource, t) <= rv(qpc.preemptableResource, t)
